@@ -1,5 +1,6 @@
 import Pxv.Driver.Body
 import Pxv.Driver.CG
+import Pxv.Driver.Pipe
 import Pxv.Driver.Server
 import Pxv.Driver.Store
 import Pxv.Driver.Session
@@ -14,6 +15,7 @@ def main (args : List String) : IO UInt32 := do
   match args with
   | ["body"] => serve Pxv.Body.handle; return 0
   | ["cg"] => serve Pxv.CG.handle; return 0
+  | ["pipe"] => serve Pxv.Pipe.handle; return 0
   | ["server"] => serve Pxv.Server.handle; return 0
   | ["store"] => Pxv.Store.serveIO Pxv.Store.handleIO; return 0
   | ["session"] => serve Pxv.Session.handle; return 0
